@@ -1061,6 +1061,10 @@ def chain_judge(c, o, props):
                 bad.append("%s: sealing changed the token's content" % n)
             if not ho["root"] or ho["nrev"] != len(mt["bl"]) or not ho["rev_prefix"]:
                 bad.append("%s: sealed token no longer verifies / changed its revocation ids" % n)
+            par = o["honest"][h["i"] - 1]
+            if ho["rid"] != par["rid"] or ho["lookups"] != par["lookups"]:
+                bad.append("%s: sealing changed under which root key (selected by identifier) the token verifies: id %s -> %s, lookups %s -> %s" % (
+                    n, par["rid"], ho["rid"], par["lookups"], ho["lookups"]))
     if c.get("atk") and "C01" in props:
         if o.get("accept") != c["accept"]:
             bad.append("attacker token is %s by the library (%s), specification says %s" % (
@@ -1142,7 +1146,7 @@ def c01(run):
     acc = [c for c in r.cases if c["accept"]]
     rej = [c for c in r.cases if not c["accept"]]
     rnd.shuffle(rej)
-    cases = acc + rej[:60000 if run.tier == "quick" else 600000]
+    cases = acc + rej[:30000 if run.tier == "quick" else 600000]
     for i, c in enumerate(cases):
         c["id"], c["emb"] = "a%d" % i, emb_of(run, i)
     chain_stage(run, driver, cases, {"C01"}, "L2")
@@ -1153,6 +1157,7 @@ def c01(run):
     if acc:
         run.sample({"case": chain_text(acc[0]), "spec_accepts": True})
     chain_honest(run, driver, {"C01"})
+    chainmut_stage(run, driver, 6000 if run.tier == "quick" else 120000)
 
 
 @check("C09")
@@ -1175,6 +1180,7 @@ def c09(run):
     for i, c in enumerate(sealed):
         c["id"], c["emb"] = "s%d" % i, emb_of(run, i)
     chain_stage(run, driver, sealed, {"C01"}, "L2 sealed-envelope mutation")
+    chainmut_stage(run, driver, 3000 if run.tier == "quick" else 60000, "L3 wire mutation (sealed and unsealed tokens)")
     # same authorization outcome sealed vs unsealed: the two-block Authz instances with the token sealed
     insts = []
     ra = core.tlc(run.work, "AuthzMC", "AuthzMC_two", timeout=3000)
@@ -1390,3 +1396,50 @@ def replay_wire(run, body):
 
 
 REPLAYERS["wire"] = replay_wire
+
+
+# =============================================================== L3 for the chain: wire mutations abstracted into Chain terms
+
+def chainmut_stage(run, driver, n, label="L3 wire mutation"):
+    cases = [{"id": "m%d" % i, "seed": run.seed * 1000003 + i} for i in range(n)]
+    res = core.run_driver(driver, "chainmut", cases, per_case_timeout=60)
+    events, src = [], []
+    for c in cases:
+        o = res[c["id"]]
+        if o.get("crash") or "tok" not in o:
+            run.report({"what": "crash"}, c, "chainmut", "process died / harness error: " + json.dumps(o)[:300])
+            continue
+        run.count((o["desc"].split(" ")[0], o["desc"][:40], o["blocks"], o["accept"]))
+        if o["stage"].startswith("PANIC"):
+            rc = confirm_case(driver, "chainmut", c, o, ("desc", "stage"))
+            run.report({"what": "panic", "mutation": o["desc"]}, c, "chainmut", "%s: mutation '%s' makes verification panic instead of rejecting: %s" % (label, o["desc"], o["stage"]),
+                       (lambda rc=rc: rc is not None))
+            continue
+        events.append({"tok": o["tok"], "malformed": o["malformed"], "accept": o["accept"]})
+        src.append((c, o))
+    bad = validate_traces(run, "TraceChain", "TraceChain", events)
+    for b in bad[:20]:
+        c, o = src[b]
+        rc = confirm_case(driver, "chainmut", c, o, ("desc", "accept"))
+        run.report({"what": "accept" if o["accept"] else "reject", "mutation": o["desc"]}, c, "chainmut",
+                   "%s: token mutated by '%s' is %s by the library (%s); Chain!Verify on its abstraction says %s. abstraction=%s" % (
+                       label, o["desc"], "ACCEPTED" if o["accept"] else "rejected", o["stage"], "reject" if o["accept"] else "accept", json.dumps(o["tok"])[:400]),
+                   (lambda rc=rc: rc is not None))
+    if src:
+        run.sample({"mutation": src[0][1]["desc"], "abstracted_token": src[0][1]["tok"], "library_accepts": src[0][1]["accept"]})
+
+
+def replay_chainmut(run, body):
+    driver = core.build_driver(run.work)
+    c = dict(body["case"])
+    o = core.run_driver(driver, "chainmut", [c], nproc=1)[str(c["id"])]
+    run.count("replay")
+    run.count("replay2")
+    if o.get("crash") or "tok" not in o or o["stage"].startswith("PANIC"):
+        run.report(body["sig"], c, "chainmut", "replayed: " + json.dumps(o)[:300])
+        return
+    if validate_traces(run, "TraceChain", "TraceChain", [{"tok": o["tok"], "malformed": o["malformed"], "accept": o["accept"]}], chunks=1):
+        run.report(body["sig"], c, "chainmut", "replayed: mutation '%s' -> library %s" % (o["desc"], "accepts" if o["accept"] else "rejects"))
+
+
+REPLAYERS["chainmut"] = replay_chainmut
